@@ -26,7 +26,11 @@ func init() {
 
 var c19FailingPrints = []string{"{$n.zz}", "{$l[5].a}", "{1 % 0}", "{$u}", "{$n + 1}", "{length($n)}", "{$s|truncate:'x'}", "{$s|nosuchdirective}",
 	// tags wrapped over several lines: the failing command BEGINS on the expected line
-	"{$n\n  .zz}", "{$u\n}", "{print\n  $n.zz\n}", "{$s\n  |nosuchdirective}", "{1\n % 0}"}
+	"{$n\n  .zz}", "{$u\n}", "{print\n  $n.zz\n}", "{$s\n  |nosuchdirective}", "{1\n % 0}",
+	// expressions inside quoted attributes (parsed by a nested scanner: their nodes must still be positioned in
+	// THIS file), short and longer than the rest of the file
+	"{call .t data=\"$s - 1\"/}", "{call .t}{param n value=\"$s - 1\"/}{/call}", "{css $s - 1, x}", "{call .t data=\"'a' - 1\"/}",
+	"{call .t data=\"'" + strings.Repeat("\xff", 300) + "' - 1\"/}", "{call .t data=\"'" + strings.Repeat("pad ", 200) + "' - 1\"/}", "{css '" + strings.Repeat("\xff", 200) + "' - 1, x}"}
 
 // posNode is a bare position handed to Registry.LineNumber / ColNumber.
 type posNode struct{ ast.Pos }
